@@ -33,6 +33,11 @@ def _result_view(rep, cid):
 def run(chk: Check) -> None:
     vectors = [v for v in runspace.enumerate_vectors(chk) if len(v["queue"]) >= 2 and not v["dryRun"] and v["workers"] == 1]
     sample = runspace.sample_covering(chk, vectors, chk.pick(28, 700), dims=("program", "layout", "manifest"))
+    # two codemods that need the same package, with one or several manifests to put it in
+    shared = [v for v in vectors if v["program"] == "both" and v["layout"] == "lf" and v["manifest"] != "none"
+              and {"pixee:python/url-sandbox", "pixee:python/sandbox-process-creation"} <= set(v["queue"])]
+    shared.sort(key=runspace.vkey)
+    sample += [v for v in shared if v not in sample][: chk.pick(10, 80)]
     scenarios = []
     for i, v in enumerate(sample):
         steps = [{"argv": runspace.argv_for(v), "keep_after": True}]
